@@ -10,6 +10,9 @@ def run(pid):
         out['selftest_total'] = len(valid)
         out['selftest_fired'] = sum(r['status'] == 'fired' for r in valid)
         out['selftest_missed'] = [r['id'] for r in valid if r['status'] == 'missed']
+        ben = [r for r in res if r['status'] in ('silent', 'false-alarm')]
+        out['selftest_benign_total'] = len(ben)
+        out['selftest_benign_silent'] = sum(r['status'] == 'silent' for r in ben)
         out['selftest_skipped'] = [r['id'] for r in res if r['status'] in ('skipped', 'invalid')]
         out['selftest_wall_s'] = round(dt, 1)
     except Exception as e:  # the self-test can never turn a passing check into a failing one
